@@ -13,6 +13,12 @@ def render_all():
     from . import tabs
     out = {}
     for m in sorted(pkgutil.iter_modules(tabs.__path__), key=lambda m: m.name):
-        mod = importlib.import_module("vcheck.tabs." + m.name)
-        out[m.name[0].upper() + m.name[1:]] = HEADER % m.name + mod.render()
+        name = m.name[0].upper() + m.name[1:]
+        try:
+            mod = importlib.import_module("vcheck.tabs." + m.name)
+            out[name] = HEADER % m.name + mod.render()
+        except BaseException as e:  # noqa - the tree under test may be broken; only dependants of this table must fail
+            msg = ("%s: %s" % (type(e).__name__, e)).replace("*)", "* )").replace("(*", "( *")[:300]
+            out[name] = (HEADER % m.name + "(* the table could not be read from the tree under test: " + msg + " *)\n"
+                         "Definition table_could_not_be_rendered : False := I.\n")
     return out
